@@ -103,7 +103,9 @@ func key(fam string, s []byte) string {
 	}
 	return ""
 }
-func inp(s []byte) map[string]string { return map[string]string{"string": core.Q(s), "hex": fmt.Sprintf("%x", s)} }
+func inp(s []byte) map[string]string {
+	return map[string]string{"string": core.Q(s), "hex": fmt.Sprintf("%x", s)}
+}
 
 // ---------------------------------------------------------------- templ.EscapeString
 func famEscape(c *core.Ctx) {
